@@ -19,18 +19,18 @@ import (
 )
 
 type Script struct {
-	ID         string              `json:"id"`
-	ReadSizes  []int               `json:"read_sizes,omitempty"`
-	Status     int                 `json:"status,omitempty"`
-	Header     map[string][]string `json:"header,omitempty"`
-	Chunks     [][]byte            `json:"chunks,omitempty"`
-	Flush      []bool              `json:"flush,omitempty"`
-	NoWrite    bool                `json:"no_write,omitempty"`
-	Ret        int                 `json:"ret"`
-	Err        string              `json:"err,omitempty"`
-	Panic      string              `json:"panic,omitempty"` // "", "before", "after"
-	EchoBody   bool                `json:"echo_body,omitempty"`
-	PauseMs    int                 `json:"pause_ms,omitempty"` // sleep after every chunk (keeps the handler in flight)
+	ID        string              `json:"id"`
+	ReadSizes []int               `json:"read_sizes,omitempty"`
+	Status    int                 `json:"status,omitempty"`
+	Header    map[string][]string `json:"header,omitempty"`
+	Chunks    [][]byte            `json:"chunks,omitempty"`
+	Flush     []bool              `json:"flush,omitempty"`
+	NoWrite   bool                `json:"no_write,omitempty"`
+	Ret       int                 `json:"ret"`
+	Err       string              `json:"err,omitempty"`
+	Panic     string              `json:"panic,omitempty"` // "", "before", "after"
+	EchoBody  bool                `json:"echo_body,omitempty"`
+	PauseMs   int                 `json:"pause_ms,omitempty"` // sleep after every chunk (keeps the handler in flight)
 }
 
 type Result struct {
